@@ -86,6 +86,18 @@ func SettleTimeout() time.Duration {
 
 var fastFail bool
 
+var (
+	strikes = map[string]int{}    // "<kind>|<what>" → how often
+	broken  = map[string]string{} // kind → the fatal outcome that reached three strikes
+)
+
+func strike(kind, what string) {
+	strikes[kind+"|"+what]++
+	if strikes[kind+"|"+what] >= 3 {
+		broken[kind] = what
+	}
+}
+
 func start() (*worker, error) {
 	cmd := exec.Command(os.Args[0], "runworker")
 	if fastFail {
@@ -144,11 +156,19 @@ func Run(prop string, c corr.Case) corr.Result {
 	mu.Lock()
 	defer mu.Unlock()
 	fail := func(out, what, detail string) corr.Result {
+		if out != "skipped" {
+			strike(kindOf(c), what)
+		}
 		res := corr.Result{Hits: []corr.Hit{{Key: prop + ":" + kindOf(c) + ":" + what, What: detail}}}
 		for range c.Lines {
 			res.Outs = append(res.Outs, out)
 		}
 		return res
+	}
+	// circuit breaker: once the same fatal outcome has been reported three times for a queue type, further scripts on
+	// that type are not run any more (each would cost a watchdog / quiescence bound and say the same thing)
+	if k := kindOf(c); broken[k] != "" && strikes[k+"|"+broken[k]] >= 3 {
+		return fail("skipped", "not-run-after-repeated-"+broken[k], "not run: three earlier scripts on this queue type already ended with `"+broken[k]+"` (see that hit for the replay)")
 	}
 	if cur == nil {
 		w, err := start()
@@ -200,6 +220,11 @@ func Run(prop string, c corr.Case) corr.Result {
 			cur = nil
 			w.kill()
 			fastFail = true
+			for _, h := range rp.Hits {
+				if i := strings.LastIndex(h.Key, ":"); i >= 0 && (strings.HasSuffix(h.Key, "never-quiesces") || strings.HasSuffix(h.Key, "does-not-terminate")) {
+					strike(kindOf(c), h.Key[i+1:])
+				}
+			}
 		}
 		return corr.Result{Outs: rp.Outs, Hits: rp.Hits}
 	case <-time.After(limit):
